@@ -2,7 +2,10 @@ module verif/harness
 
 go 1.23.3
 
-require github.com/storacha/go-ucanto v0.0.0
+require (
+	github.com/multiformats/go-multibase v0.2.0
+	github.com/storacha/go-ucanto v0.0.0
+)
 
 require (
 	github.com/go-logr/logr v1.4.2 // indirect
@@ -37,7 +40,6 @@ require (
 	github.com/mr-tron/base58 v1.2.0 // indirect
 	github.com/multiformats/go-base32 v0.1.0 // indirect
 	github.com/multiformats/go-base36 v0.2.0 // indirect
-	github.com/multiformats/go-multibase v0.2.0 // indirect
 	github.com/multiformats/go-multicodec v0.9.0 // indirect
 	github.com/multiformats/go-multihash v0.2.3 // indirect
 	github.com/multiformats/go-varint v0.0.7 // indirect
